@@ -130,6 +130,8 @@ def evaluate_sim(c, r):
                 V.append(("set-iter-does-not-restore", i, "Set_Iter(%s) did not restore the saved state" % ev["op"][1]))
             if ev.get("trial_reset") is False:
                 V.append(("set-iter-leaves-stale-trial", i, "Set_Iter(%s) left a stale trial state" % ev["op"][1]))
+        if op == "remesh" and ev.get("state_reset") is False:
+            V.append(("mesh-replacement-keeps-history", i, "after simu.mesh = new mesh the internal variables of the old mesh are still there"))
         if ev.get("history_intact") is False:
             V.append(("saved-history-mutated", i, "a previously saved state changed after %s" % op))
     return V
@@ -182,4 +184,15 @@ def evaluate_batch(c, r):
                 V.append(("dgamma-negative", k, "%s: dp = %.3e" % (tag, pr["dp"])))
             if pr["sig_vs_state"] > 1e-8 * sc:
                 V.append(("stress-state-inconsistent", k, "%s: %.3e" % (tag, pr["sig_vs_state"])))
+    return V
+
+
+def evaluate_memo(c, r):
+    if r.get("error"):
+        return [("harness-error", -1, r["error"][-300:])]
+    V = []
+    if not r["changed_equals_fresh"]:
+        V.append(("stale-after-parameter-change", 0, "Integrate after changing (E, v) differs from a Behavior built with the new values: max|dsig| = %.3e (|sig| = %.3e)" % (r["dsig"], r["scale"])))
+    if not r["back_equals_first"]:
+        V.append(("stale-after-parameter-change", 1, "changing (E, v) back does not give the first result again"))
     return V
